@@ -40,7 +40,9 @@ POOL = ['red', 'RED', '#abc', 'rgb(1, 2, 3)', 'rgba(1, 2, 3, 0.5)', 'hsl(120, 50
         '1px 2px', '1px 2px 3px 4px', 'red blue', '12px/1.5 serif', 'italic bold 12px serif', 'counter(c, disc)', 'attr(title)', 'zqx', '10deg', '2s',
         'repeat-x', 'fixed', 'scroll', 'transparent', 'invert', 'underline overline', 'uppercase', 'nowrap', 'hidden', 'visible', 'both', 'inside',
         'collapse', 'always', 'avoid', '400', 'medium', 'center top', '50% 50%', 'open-quote', '"a" "b"', 'decimal', 'square', 'ltr', 'embed', 'pointer',
-        'inline-block', 'table-cell', 'absolute', 'baseline', 'sub', 'small-caps', 'larger']  # fmt: skip
+        'inline-block', 'table-cell', 'absolute', 'baseline', 'sub', 'small-caps', 'larger',
+        # numbers a hair away from an integer, many fractional digits, exponent-free small values
+        '1.0000001', '0.9999999', '2.0000002px', '49.9999999%', '-0.9999999em', '100.0000001%', '1.5000000', '0.50', '.5em', '+1.0px', '3.14159265']  # fmt: skip
 
 
 def tokens_of(value):
@@ -129,7 +131,20 @@ def spell(value, kind, rng):
     return text
 
 
-SPELLINGS = ['plain', 'upper', 'mixed', 'ws', 'comments', 'comments-inside']
+SPELLINGS = ['plain', 'upper', 'mixed', 'ws', 'comments', 'comments-inside', 'name-upper', 'name-escape', 'name-hex']
+
+
+def spell_name(name, kind, rng):
+    """the property name in another spelling CSS allows: letter case, a backslash before a letter that is no hex digit, a hex escape"""
+    if kind == 'name-upper':
+        return ''.join(c.upper() if rng.random() < 0.6 else c for c in name)
+    idx = [i for i, ch in enumerate(name) if ch.isalpha() and (kind == 'name-hex' or ch not in 'abcdefABCDEF')]
+    if not idx:
+        return name
+    i = rng.choice(idx)
+    if kind == 'name-escape':
+        return name[:i] + '\\' + name[i:]
+    return name[:i] + '\\%x ' % ord(name[i]) + name[i + 1:]
 
 
 def verdict_parsed(cssutils, name, text, context='style'):
@@ -168,10 +183,21 @@ def judge_pair(ctx, cssutils, name, value, rng, vclass, expect=None, context='st
         if bool(ref) != expect:
             ctx.violation('grammar', base_case, {'profile.validate': ref, 'css21_grammar': expect, 'value_class': vclass}, features=feats)
     verdicts = {}
+    import re
+
+    deep = bool(re.search(r'\.\d{7,}', value))
+    if name == 'box-shadow' and re.fullmatch(r'\.\d+[a-z%]*', value):
+        feats.append('box-shadow.single-length-without-leading-zero')
     for kind in SPELLINGS:
-        text = spell(value, kind, rng)
-        if kind != 'plain' and text == value:
-            continue
+        pname = name
+        if kind.startswith('name-'):
+            pname, text = spell_name(name, kind, rng), value
+            if pname == name:
+                continue
+        else:
+            text = spell(value, kind, rng)
+            if kind != 'plain' and text == value:
+                continue
         ctx.count('oracle.metamorphic')
         ctx.count('evaluations')
         f2 = list(feats)
@@ -179,11 +205,13 @@ def judge_pair(ctx, cssutils, name, value, rng, vclass, expect=None, context='st
             f2.append('value.comment-inside-function') if '/*' in text[text.find('(') : text.rfind(')') + 1] else None
         try:
             core.canonical_state(cssutils)
-            v, sheet = verdict_parsed(cssutils, name, text, context)
+            v, sheet = verdict_parsed(cssutils, pname, text, context)
             if v is None:
                 verdicts[kind] = 'DROPPED'
                 continue
             verdicts[kind] = bool(v)
+            if deep:
+                continue  # (the serializer writes six fractional digits - C18 states that limit -: the value read back is another one)
             # round trip
             sheet2 = cssutils.parseString(sheet.cssText)
             p2 = sheet2.cssRules[0].style.getProperties(all=True) if len(sheet2.cssRules) else []
@@ -201,6 +229,9 @@ def judge_pair(ctx, cssutils, name, value, rng, vclass, expect=None, context='st
             core.canonical_state(cssutils)
             p = css.Property(name, value)
             verdicts['Property()'] = bool(p.valid)
+            for nk in ('name-upper', 'name-escape'):
+                nm = spell_name(name, nk, rng)
+                verdicts['Property(%s)' % nk] = bool(css.Property(nm, value).valid)
             st = css.CSSStyleDeclaration()
             st.setProperty(name, value)
             verdicts['setProperty'] = bool(st.getProperties(all=True)[0].valid)
